@@ -266,6 +266,7 @@ def _enum_pair(ctx, ty):
         if src and len(src) == 1 and inner[0] == "aggr" and inner[1] == self_adt:
             dec.setdefault(next(iter(src)), set()).add(inner[2])
     enc = {}
+    multi = []
     oks = [o for o in outcomes(e, pe) if o["kind"] == "ok"]
     others = [o for o in outcomes(e, pe) if o["kind"] != "ok"]
     if len(oks) == 1:
@@ -275,8 +276,13 @@ def _enum_pair(ctx, ty):
             sv = pvs.get(("param", 0))
             wv = _variant_of_value_term(term)
             if sv and len(sv) == 1 and wv:
-                enc[next(iter(sv))] = wv
-    problems = []
+                v = next(iter(sv))
+                if v in enc and enc[v] != wv:
+                    multi.append("variant %s is encoded as %s or %s depending on its value" % (v, enc[v], wv))
+                enc[v] = wv
+            else:
+                multi.append("encoder arm not selected by a single variant: %s" % show(term)[:60])
+    problems = list(multi)
     for wire, outs in dec.items():
         for v in outs:
             if enc.get(v) != wire:
